@@ -44,6 +44,8 @@ func genC04Doc(r *lib.Rng) string {
 	return sb.String()
 }
 
+const c04K6 = "go-to-definition on a member of a variable typed by an alias of a table / array type that ANOTHER file declares ('---@alias PointMap table<string, Point>' in types.lua, '---@type PointMap' + 'pmap.somekey' in main.lua) is answered with the requesting file's URI and the other file's line and column (getTableTypeMemKey / getArrayTypeMemKey build the symbol with FileName: fileName): the range names a place that is not in that document"
+
 var c04Known = map[byte][2]string{
 	'E': {"C04-K1", "an identifier that follows, on the same line, a short string containing an escape sequence is reported at columns shifted left (the lexer advances by the UNESCAPED length of the string)"},
 	'L': {"C04-K2", "an identifier that follows a long-bracket string or long comment on the same line (or on the line where a multi-line one ends) is reported at columns counted from the end of that construct"},
@@ -213,11 +215,14 @@ func c04E2E(res *lib.Result, tier string, root *lib.Rng) error {
 		src += "local rq = require(\"mod\")\nprint(rq.alpha, rq.beta)\nlocal function mkt()\n    return { inner = 1, other = 2 }\nend\nlocal rr = mkt()\nprint(rr.inner, rr.other)\n"
 		// types declared in another file: the definition of a type name in an annotation is a place of that file
 		src += "---@type Point\nlocal pt = { px = 1, py = 2 }\n---@param s Shape\n---@param l PointList\nlocal function draw(s, l) print(s.origin.px, l) end\ndraw(nil, { pt })\n"
+		// a variable typed by an alias of a table / array type that another file declares: its members are the
+		// alias's value type, a place of that other file (finding C04-K6: answered with this file's URI)
+		src += "---@type PointMap\nlocal pmap = {}\nprint(pmap.somekey)\n"
 		// a file that starts with a byte-order mark (which is not part of its text)
 		src += "print(gbom, gbom2)\n"
 		files := map[string]string{"main.lua": src, "defs.lua": defs,
 			"mod.lua":   "local function helper() end\nreturn { alpha = 1, beta = helper, [\"gamma\"] = 3 }\n",
-			"types.lua": "-- types\n--\n--\n---@class Point\n---@field px number\n---@field py number\n\n---@alias PointList Point[]\n\n---@class Shape\n---@field origin Point\nlocal Shape = {}\nreturn Shape\n",
+			"types.lua": "-- types\n--\n--\n---@class Point\n---@field px number\n---@field py number\n\n---@alias PointList Point[]\n---@alias PointMap table<string, Point>\n---@class Shape\n---@field origin Point\nlocal Shape = {}\nreturn Shape\n",
 			"bom.lua":   "\xEF\xBB\xBFgbom = 1 gbom2 = 2\nprint(gbom)\n"}
 		dir := lib.ScratchDir(fmt.Sprintf("c04e%d", wi))
 		if err := lib.WriteWorkspace(dir, files); err != nil {
@@ -330,6 +335,13 @@ func c04E2E(res *lib.Result, tier string, root *lib.Rng) error {
 						checkIn(f, fmt.Sprintf("definition of %s at %d:%d", p.name, p.line, p.col), l.Range)
 						if t, ok := textIn(f, l.Range); ok && !okText[t] && !(p.name == "mod" && l.Range.Start.Line == 0) && !strings.Contains(lines[p.line][:p.col], "require") {
 							res.AddViolation("impl-vs-spec", fmt.Sprintf("definition of %s at %d:%d: the range %s of %s selects %q, not the identifier", p.name, p.line, p.col, locOfRange(l.Range), f, t), src, false)
+						}
+					}
+					if sess.Rel(l.URI) == "main.lua" && p.name == "somekey" {
+						// the answer should be the value type of the alias, in types.lua
+						if t, ok := textAt(l.Range); !ok || t != p.name {
+							res.HitKnown("C04-K6", c04K6, fmt.Sprintf("definition of %s at %d:%d answers main.lua %s in\n%s", p.name, p.line, p.col, locOfRange(l.Range), src))
+							continue
 						}
 					}
 					if sess.Rel(l.URI) == "main.lua" {
